@@ -554,6 +554,8 @@ async fn stream_events(
     };
 
     let receiver = handle.subscribe();
+    #[cfg(feature = "verif")]
+    rip_kernel::verif::yield_async("session_stream:after_subscribe").await;
     let past = handle.events_snapshot().await;
 
     let last_seq = past.last().map(|event| event.seq);
@@ -1272,6 +1274,8 @@ async fn thread_stream_events(
 ) -> impl IntoResponse {
     let store = state.engine.continuities();
     let receiver = store.subscribe();
+    #[cfg(feature = "verif")]
+    rip_kernel::verif::yield_async("thread_stream:after_subscribe").await;
 
     let past = match store.replay_events(&thread_id) {
         Ok(events) => events,
@@ -1461,6 +1465,8 @@ async fn stream_task_events(
     };
 
     let receiver = handle.subscribe();
+    #[cfg(feature = "verif")]
+    rip_kernel::verif::yield_async("task_stream:after_subscribe").await;
     let past = handle.events_snapshot().await;
 
     let last_seq = past.last().map(|event| event.seq);
